@@ -328,7 +328,7 @@ func init() {
 		ID: "C10", Level: "exploration",
 		Technique: "exhaustive small-scope enumeration of the field-length boundary product x mutation kinds x map shapes, decoded by the client's reader and by an independent KeyValue reader, and a set comparison of the protobuf and cellblock forms",
 		Rule: "row length {0,1,2,255,256,32767,65535} x family {0,1,255} x qualifier {0,1,300} x value {0,1,3000|70000} x timestamp {latest,0,1,MaxInt64,MaxUint64-1,now} x {put,append,increment,delete,delete-one-version} x 11 map shapes (nil/empty outer and inner maps, two qualifiers, two families in both orders with nil/empty/qualified inner maps). Non-trivial = non-empty value map.",
-		Assumptions: []string{"family length <= 255 and row length <= 65535 as the statement says", "cells denoted by the protobuf form follow HBase's ProtobufUtil (qualifier timestamp, else mutation timestamp, else LATEST)"},
+		Assumptions: []string{"the enumeration is decided a second time in a worker built for GOARCH=386", "family length <= 255 and row length <= 65535 as the statement says", "cells denoted by the protobuf form follow HBase's ProtobufUtil (qualifier timestamp, else mutation timestamp, else LATEST)"},
 		Quick:       60 * time.Second, Thorough: 8 * time.Minute,
 		Direct: c10Direct, Arch32: true,
 	})
